@@ -37,7 +37,7 @@ from __future__ import annotations
 import ast
 import re
 
-from ..astutil import attr_chain, callee_name, calls, is_name, is_self_attr, text
+from ..astutil import call_recv, attr_chain, callee_name, calls, is_name, is_self_attr, text
 from ..core import Result
 from ..model import AnchorMissing, ClassInfo, Repo, fold_str, fold_str_set, walk_no_nested
 from ..registry import Registry
@@ -115,7 +115,7 @@ class Skel:
         if isinstance(e, ast.IfExp):
             return self._expr(e.body, env) | self._expr(e.orelse, env)
         if isinstance(e, ast.Call) and callee_name(e) == "join" and isinstance(e.func, ast.Attribute):
-            sep = self._expr(e.func.value, env)
+            sep = self._expr(call_recv(e), env)
             arg = e.args[0] if e.args else None
             if isinstance(arg, ast.Name) and arg.id in env and isinstance(env[arg.id], set):
                 # list built by appends: any concatenation; approximate by joining all fragments once
@@ -129,10 +129,10 @@ class Skel:
             if isinstance(st, ast.Expr):
                 # buf.append(x) on a list var
                 c = st.value
-                if isinstance(c, ast.Call) and callee_name(c) == "append" and isinstance(c.func.value, ast.Name):
+                if isinstance(c, ast.Call) and callee_name(c) == "append" and isinstance(call_recv(c), ast.Name):
                     for env in envs:
-                        cur = env.get(c.func.value.id, set())
-                        env[c.func.value.id] = set(cur) | self._expr(c.args[0], env)
+                        cur = env.get(call_recv(c).id, set())
+                        env[call_recv(c).id] = set(cur) | self._expr(c.args[0], env)
                 continue
             if isinstance(st, (ast.Assign, ast.AnnAssign)):
                 tgt = st.targets[0] if isinstance(st, ast.Assign) else st.target
@@ -361,9 +361,13 @@ def run(repo: Repo) -> Result:
                 return True
         return False
 
+    from ..normalize import nfunc
+
     sl = repo.cls("liquid.builtin.expressions.primitive.StringLiteral")
     res.ob("quote:StringLiteral")
     m = sl.methods.get("__str__")
+    if m is not None:
+        m = nfunc(repo, m, small_public=6, aliases=False)  # a shared quoting helper is inlined
     if m is None or has_repr(m):
         res.add("C04-QUOTE", sl.qual, "repr", "StringLiteral must be serialised verbatim between quotes (no repr: Liquid strings have no escape sequences)", sl.file, sl.node.lineno)
     elif "in self.value" not in text(m.node):
@@ -373,7 +377,7 @@ def run(repo: Repo) -> Result:
     m = fl.methods.get("__str__")
     if m is None or not any(isinstance(n, ast.Call) and is_name(n.func, "format") and len(n.args) == 2 and isinstance(n.args[1], ast.Constant) and n.args[1].value == "f" for n in ast.walk(m.node)):
         res.add("C04-QUOTE", fl.qual, "exponent", "FloatLiteral must be serialised positionally (format(..., 'f')): the float token has no exponent form", fl.file, fl.node.lineno)
-    pth = repo.own_method("liquid.builtin.expressions.path.Path", "__str__")
+    pth = nfunc(repo, repo.own_method("liquid.builtin.expressions.path.Path", "__str__"), small_public=6, aliases=False)
     res.ob("quote:Path", 2)
     if has_repr(pth):
         res.add("C04-QUOTE", pth.qual, "repr", "Path.__str__ must not use repr for quoted segments", pth.file, pth.line)
@@ -395,7 +399,7 @@ def run(repo: Repo) -> Result:
         if m is None or c.qual in (sl.qual, fl.qual) or c.name == "Literal":
             continue
         res.ob(f"quote:{c.qual}")
-        if has_repr(m):
+        if has_repr(nfunc(repo, m, small_public=6, aliases=False)):
             res.add("C04-QUOTE", c.qual, "repr", f"{c.name}.__str__ uses repr()/!r: Python escapes are not Liquid syntax", m.file, m.line)
 
     # ---- C04-PREC ---------------------------------------------------------------------
@@ -526,7 +530,7 @@ def run(repo: Repo) -> Result:
                 if bad or rev_slice:
                     res.add("C04-ORDER", c.qual, f"reordered:{ch[1]}", f"{c.name}.__str__ walks self.{ch[1]} through `{text(it)[:50]}`: the elements are written in a different order than they are rendered", m.file, holder.lineno)
                 if isinstance(holder, ast.For):
-                    sinks = {x.func.value.id for x in ast.walk(holder) if isinstance(x, ast.Call) and isinstance(x.func, ast.Attribute) and x.func.attr in ("append", "extend", "insert") and isinstance(x.func.value, ast.Name)}
+                    sinks = {call_recv(x).id for x in ast.walk(holder) if isinstance(x, ast.Call) and isinstance(x.func, ast.Attribute) and x.func.attr in ("append", "extend", "insert") and isinstance(call_recv(x), ast.Name)}
                     ins = [x for x in ast.walk(holder) if isinstance(x, ast.Call) and isinstance(x.func, ast.Attribute) and x.func.attr == "insert"]
                     if len(sinks) > 1 or ins:
                         res.add("C04-ORDER", c.qual, f"partitioned:{ch[1]}", f"{c.name}.__str__ distributes the elements of self.{ch[1]} over {sorted(sinks)} ({'insert' if ins else 'several lists'}): elements that are rendered interleaved are written regrouped, so the text re-parses to a different order", m.file, holder.lineno)
